@@ -6,7 +6,7 @@ from __future__ import annotations
 import ast
 from typing import Any, Dict, Optional, Sequence
 
-from .constfold import Folder, PySeq, Unfoldable, truth
+from .constfold import BoolList, Folder, PySeq, Unfoldable, truth
 
 
 class FragRaise(Exception):
@@ -53,12 +53,21 @@ def run_fragment(body: Sequence[ast.stmt], names: Dict[str, Any], attrs: Optiona
         if grp and len(grp) > 1:
             raise Unfoldable(f"store into `{name}`, which shares its storage with {sorted(grp - {name})} (aliasing is not modelled)")
 
+    #: why a name is unbound: the statement whose value the evaluator could not follow, and the reason
+    why: Dict[str, str] = {}
+
     def fold(e):
         f = Folder(env, attrs)
         f.funcs = dict(funcs or {})
         f.materialise = materialise
         f.ctors = dict(ctors or {})
-        return f.fold(e)
+        try:
+            return f.fold(e)
+        except Unfoldable as exc:
+            msg = str(exc)
+            if msg.startswith("name ") and msg[5:] in why and msg[5:] not in env:
+                raise Unfoldable(f"{msg} (unbound: {why[msg[5:]]})")
+            raise
 
     def store_sub(t: ast.Subscript, v):
         """M[i] = v, M[i, j] = v, M[:, j] = v, M[i, :] = v on a nested-list value bound to a name"""
@@ -81,6 +90,43 @@ def run_fragment(body: Sequence[ast.stmt], names: Dict[str, Any], attrs: Optiona
             raise Unfoldable("subscript store into something that is not a list value")
         base = copy.deepcopy(attrs[_chain(t.value)] if in_attrs else env[t.value.id])
 
+        if not isinstance(t.slice, (ast.Tuple, ast.Slice)):
+            mask_ = fold(t.slice)
+            if isinstance(mask_, BoolList):
+                # boolean-mask store: base[mask] = v (mask over the leading axes of base)
+                from .constfold import _at, _regular, _shape
+
+                ms_, bs_ = _regular(mask_), _regular(base)
+                if ms_ != bs_[: len(ms_)] or not ms_:
+                    raise Unfoldable("mask shape does not match the leading axes of the target")
+                import itertools as _it
+
+                hits_ = [idx for idx in _it.product(*[range(n_) for n_ in ms_]) if _at(mask_, idx)]
+                rest_ = bs_[len(ms_):]
+                vs_ = _shape(v) if isinstance(v, list) else []
+                if isinstance(v, list) and vs_ == [len(hits_)] + rest_:
+                    vals_ = list(v)
+                elif (not isinstance(v, list) and not rest_) or (isinstance(v, list) and vs_ == rest_) or (not isinstance(v, list) and rest_):
+                    vals_ = [v] * len(hits_)
+                elif isinstance(v, list) and vs_ == [1] + rest_:
+                    vals_ = [v[0]] * len(hits_)
+                else:
+                    raise Unfoldable("masked store: value shape")
+                for idx, val_ in zip(hits_, vals_):
+                    cur_ = base
+                    for i_ in idx[:-1]:
+                        cur_ = cur_[i_]
+                    if rest_ and not isinstance(val_, list):
+                        from .constfold import _build_from
+
+                        val_ = _build_from(rest_, lambda _i, _v=val_: _v)
+                    cur_[idx[-1]] = copy.deepcopy(val_)
+                if in_attrs:
+                    attrs[_chain(t.value)] = base
+                else:
+                    env[t.value.id] = base
+                return
+
         def part(e):
             if isinstance(e, ast.Slice):
                 if e.lower is None and e.upper is None and e.step is None:
@@ -89,6 +135,8 @@ def run_fragment(body: Sequence[ast.stmt], names: Dict[str, Any], attrs: Optiona
             i = fold(e)
             if isinstance(i, int) and not isinstance(i, bool):
                 return i
+            if isinstance(i, BoolList):
+                raise Unfoldable("store through a mask inside a tuple index")
             if isinstance(i, list) and all(isinstance(t_, int) and not isinstance(t_, bool) for t_ in i):
                 return list(i)
             raise Unfoldable("store index")
@@ -267,17 +315,20 @@ def run_fragment(body: Sequence[ast.stmt], names: Dict[str, Any], attrs: Optiona
                         v = list_method(c)
                     else:
                         v = fold(st.value)
-                except Unfoldable:
+                except Unfoldable as exc_:
                     # the value is outside literal arithmetic: its names become unbound (a later use fails)
+                    note_ = f"`{ast.unparse(st)[:70]}`: {str(exc_)[:120]}"
                     for t in st.targets:
                         for x in ast.walk(t):
                             if isinstance(x, ast.Name) and isinstance(x.ctx, ast.Store):
                                 env.pop(x.id, None)
+                                why[x.id] = note_
                         base_ = t
                         while isinstance(base_, (ast.Subscript, ast.Attribute)):
                             base_ = base_.value
                         if isinstance(base_, ast.Name) and base_ is not t:
                             env.pop(base_.id, None)  # a container updated with an unknown value is unknown
+                            why[base_.id] = note_
                     continue
                 for t in st.targets:
                     bind(t, v)
